@@ -94,10 +94,11 @@ const (
 	OpAsync                 // [p<Dst> =] (async function a<ID>(){ body })()   (Arrow: async arrow)
 	OpGoCall                // gores(G, V) / gorej(G, V): the Go-side resolver of a NewPromise() promise called from a native
 	OpLog                   // log("s<ID>")
+	OpSetCtor               // give p<Src> an OWN "constructor" property (data or logging accessor), see CtorSpec
 	NOpKinds
 )
 
-var OpKindNames = [...]string{"new", "call", "then", "catch", "finally", "static", "async", "gocall", "log"}
+var OpKindNames = [...]string{"new", "call", "then", "catch", "finally", "static", "async", "gocall", "log", "setctor"}
 
 type Cls int
 
@@ -108,6 +109,30 @@ const (
 )
 
 var ClsNames = [...]string{"Promise", "MyP", "MyQ"}
+
+// CtorVal is what an own "constructor" property of a promise evaluates to.
+type CtorVal int
+
+const (
+	CvUndef CtorVal = iota
+	CvObject
+	CvPromise
+	CvMyP
+	CvMyQ
+	NCtorVals
+)
+
+var CtorValNames = [...]string{"undefined", "Object", "Promise", "MyP", "MyQ"}
+
+// CtorSpec: p.constructor = <Val>   or   Object.defineProperty(p, "constructor", {get(){ log("gc<ID>"); return <Val> }, configurable: true})
+// or, with Throws, a getter that logs and then throws the number N.
+type CtorSpec struct {
+	Getter bool    `json:"getter,omitempty"`
+	Throws bool    `json:"throws,omitempty"`
+	N      int     `json:"n,omitempty"`
+	Val    CtorVal `json:"val"`
+	ID     int     `json:"id,omitempty"`
+}
 
 type ActKind int
 
@@ -153,6 +178,7 @@ type Op struct {
 	ID     int        `json:"id,omitempty"`
 	Arrow  bool       `json:"arrow,omitempty"`
 	Body   []AStep    `json:"body,omitempty"`
+	Ctor   *CtorSpec  `json:"ctor,omitempty"`
 }
 
 // GoStep is a call of a NewPromise() resolver made by Go between runs.
